@@ -29,6 +29,20 @@ CHECKS = {
         "PretextView model as stated in the property; margin 3*(1+floor t); sampling of core bases except in dense shards.",
         "3-C02",
     ),
+    "C05": (
+        "exploration",
+        "independent line-by-line AGP/TPF parser+formatter as executable model: round-trip laws on generated assemblies, byte equality with the reference formatter, AGP->TPF->AGP, and line accounting on line-level corruptions (same rows as the model or an error); asm-format CLI slice",
+        "Every generated assembly goes through parse(format(A))==A, format(parse(T))==T, the gap-type table and AGP->TPF->AGP; each corrupted canonical text must be rejected when the model calls a line invalid and otherwise yield exactly the model's rows; the CLI is driven with files, stdin, -i/-f overrides and CRLF input.",
+        "Name/tag/header domain of DESIGN 5.2; corruptions use clearly non-numeric tokens.",
+        "3-C05",
+    ),
+    "C06": (
+        "exploration",
+        "post-condition on the real format_agp at every call site (tee on the file argument) validated by an independent AGP validator; workloads: all remap outputs, FASTA .agp caches, asm-format, pretext-to-asm AGP and FASTA+AGP outputs (object length = record length)",
+        "Every AGP text that any workload causes the tools to write is validated for tiling from 1, part numbers, spans, U/yes/gap type and last end = scaffold length (and FASTA record length where a FASTA is written with it).",
+        "Gap length >= 1; assemblies with duplicate object names are left to C10.",
+        "3-C06",
+    ),
     "C07": (
         "exploration",
         "adjacency-history oracle: unordered pairs of facing contig ends (name, coordinate, lo|hi) with the gap rows between them, input vs every output scaffold",
